@@ -229,14 +229,87 @@ class _CloneShim(object):
 TWIN_KINDS = ('Angle', 'Epoch', 'Interpolation', 'CurveFitting', 'Earth', 'Ellipsoid')
 
 
+def twin_capability():
+    """Which classes have a repr that really recreates the object, bit for bit?  Checked once per solo process on
+    awkward values (1/3, 0.1 + 0.2, ...), because O2.twin is only sound for such classes: a repr that rounds or
+    abbreviates (whether today or after some change to the library that has nothing to do with C20) would make a
+    'twin' that merely prints like the original, and the oracle must then stay silent rather than blame the calls."""
+    from . import ops
+    ns = dict(ops.CLASSES)
+    ok = set()
+    third, odd = 1.0 / 3.0, 0.1 + 0.2
+
+    def same(a, b):
+        return type(a) is type(b) and (a.hex() == b.hex() if isinstance(a, float) else a == b)
+    try:
+        A = ns['Angle']
+        good = True
+        for v in (third, -odd, 359.99999999999994, 1e-12):
+            a = A(v)
+            t = eval(repr(a), dict(ns))
+            good = good and same(float(a), float(t))
+        if good:
+            ok.add('Angle')
+    except Exception:
+        pass
+    try:
+        E = ns['Epoch']
+        good = True
+        for v in (2451545.0 + third, 1721057.5 + odd, 2299160.4999999995):
+            e = E(v)
+            t = eval(repr(e), dict(ns))
+            good = good and abs(t.jde() - e.jde()) < 1e-6     # (re-normalisation in the last bit is handled per object)
+        if good:
+            ok.add('Epoch')
+    except Exception:
+        pass
+    try:
+        I = ns['Interpolation']
+        i = I([third, 1.0 + odd, 2.5, 4.0 - third], [odd, -third, 7.0 * third, 1e-3 + odd])
+        t = eval(repr(i), dict(ns))
+        if all(same(i(x), t(x)) and same(i.derivative(x), t.derivative(x)) for x in (0.5, 1.7, 3.3)):
+            ok.add('Interpolation')
+    except Exception:
+        pass
+    try:
+        C = ns['CurveFitting']
+        c = C([third, 1.0 + odd, 2.5, 4.0 - third, 5.1], [odd, -third, 7.0 * third, 1e-3 + odd, 2.2])
+        t = eval(repr(c), dict(ns))
+        if all(same(x, y) for x, y in zip(c.linear_fitting() + c.quadratic_fitting(), t.linear_fitting() + t.quadratic_fitting())):
+            ok.add('CurveFitting')
+    except Exception:
+        pass
+    try:
+        L = ns['Ellipsoid']
+        el = L(6378137.0 + third, 1.0 / 298.257223563, 7.292115e-05 * (1 + 1e-9))
+        t = eval(repr(el), dict(ns))
+        if same(el.b(), t.b()) and same(el.e(), t.e()):
+            ok.add('Ellipsoid')
+        Ea = ns['Earth']
+        ea = Ea(el)
+        t2 = eval(repr(ea), dict(ns))
+        if same(ea.rho_sinphi(41.3, 120.0), t2.rho_sinphi(41.3, 120.0)) and same(ea.rp(41.3), t2.rp(41.3)) and \
+                same(ea.linear_velocity(41.3), t2.linear_velocity(41.3)):
+            ok.add('Earth')
+    except Exception:
+        pass
+    return ok
+
+
+_TWIN_OK = None
+
+
 def _twin(o, ns):
     """An object rebuilt from o's documented repr ("a valid expression that could be
     used to recreate the object") plus its public tolerance; None unless the twin is
     equal to o under every public observer the snapshots use."""
+    global _TWIN_OK
     from .snap import snap
     from .pool import kind_of
+    if _TWIN_OK is None:
+        _TWIN_OK = twin_capability()
     k = kind_of(o)
-    if k not in TWIN_KINDS:
+    if k not in TWIN_KINDS or k not in _TWIN_OK:
         return None
     try:
         t = eval(repr(o), dict(ns))
